@@ -107,17 +107,21 @@ func (k Keeper) IterateConsensusStates(
 
 	defer iterator.Close()
 	for ; iterator.Valid(); iterator.Next() {
-		key := iterator.Key()
+		key := string(iterator.Key())
 
-		keySplit := strings.Split(string(key), "/")
-		// consensus key is in the format "clients/<chainName>/consensusStates/<height>"
-		if len(keySplit) != 4 || keySplit[2] != string(host.KeyConsensusStatePrefix) {
+		// consensus key is in the format "clients/<chainName>/consensusStates/<height>", where <height> is
+		// 16 binary bytes that may themselves contain the separator, so the key is parsed by position
+		rest := strings.TrimPrefix(key, string(host.KeyClientStorePrefix)+"/")
+		idx := strings.Index(rest, "/")
+		if idx < 0 {
 			continue
 		}
-		chainName := keySplit[1]
-		//revinum := sdk.BigEndianToUint64(key[35:43])
-		//revihei := sdk.BigEndianToUint64(key[44:])
-		heightBytes := keySplit[3]
+		chainName, sub := rest[:idx], rest[idx+1:]
+		consPrefix := host.KeyConsensusStatePrefix + "/"
+		if !strings.HasPrefix(sub, consPrefix) || len(sub) != len(consPrefix)+16 {
+			continue
+		}
+		heightBytes := sub[len(consPrefix):]
 		revisionUint64 := binary.BigEndian.Uint64([]byte(heightBytes[:8]))
 		heightUint64 := binary.BigEndian.Uint64([]byte(heightBytes[8:]))
 		height := types.MustParseHeight(fmt.Sprintf("%d-%d", revisionUint64, heightUint64))
